@@ -207,17 +207,19 @@ impl Sys {
     }
     fn start(&self) -> (Interp, Machine) {
         let c = &configs()[self.cfg];
-        let mut it = Interp::bare().expect("interpreter");
+        let mut it = Interp::must_bare();
         if c.file_supply {
             it.it.program_directory = Some(self.dir.clone());
         } else {
-            it.it.register_library_factory(LibraryFactory::from_char_stream(&library_name!("clib"), CLIB.chars()).expect("clib source"));
-            it.it.register_library_factory(LibraryFactory::from_char_stream(&library_name!("mlib"), MLIB.chars()).expect("mlib source"));
-            it.it.register_library_factory(LibraryFactory::from_char_stream(&library_name!("plain"), PLAIN.chars()).expect("plain source"));
-            it.it.register_library_factory(LibraryFactory::from_char_stream(&library_name!("broken"), BROKEN.chars()).expect("broken source"));
+            it.it.register_library_factory(LibraryFactory::from_char_stream(&library_name!("clib"), CLIB.chars()).unwrap_or_else(|e| crate::drive::impl_fail(&format!("the source of (clib) is rejected: {}", e))));
+            it.it.register_library_factory(LibraryFactory::from_char_stream(&library_name!("mlib"), MLIB.chars()).unwrap_or_else(|e| crate::drive::impl_fail(&format!("the source of (mlib) is rejected: {}", e))));
+            it.it.register_library_factory(LibraryFactory::from_char_stream(&library_name!("plain"), PLAIN.chars()).unwrap_or_else(|e| crate::drive::impl_fail(&format!("the source of (plain) is rejected: {}", e))));
+            it.it.register_library_factory(LibraryFactory::from_char_stream(&library_name!("broken"), BROKEN.chars()).unwrap_or_else(|e| crate::drive::impl_fail(&format!("the source of (broken) is rejected: {}", e))));
         }
         let o = it.eval(c.import);
-        assert!(matches!(o, Outcome::Val(_)), "import failed on the implementation: {} => {}", c.import, o);
+        if !matches!(o, Outcome::Val(_)) {
+            crate::drive::impl_fail(&format!("[{} / {}] {} => {}", c.name, if c.file_supply { "file" } else { "source" }, c.import, o));
+        }
         for (decl, _succeeds) in c.more_imports {
             // (whether each declaration succeeds is C14's subject; here only what is bound counts)
             let _ = it.eval(decl);
